@@ -21,6 +21,10 @@ fn durs_for(x: NaiveDateTime, rng: &mut Rng, extra: usize) -> Vec<i128> {
     let p = ns_of(x);
     let mut b: Vec<i128> = vec![0, 1, NS - 1, NS, NS + 1, 2 * NS - 1, 86_400 * NS - 1, 86_400 * NS, 86_400 * NS + 1, 365 * 86_400 * NS, 366 * 86_400 * NS, 146_097 * 86_400 * NS,
         DUR_LIM, DUR_LIM - 1, (max_ns() - p).abs(), (max_ns() - p).abs() + 1, (p - min_ns()).abs(), (p - min_ns()).abs() + 1, ((max_ns() - p).abs() - 1).max(0), ((p - min_ns()).abs() - 1).max(0)];
+    // whole-day counts that alias a small count when narrowed to 32 bits
+    for j in [1i128, 2, 3] { for r in [0i128, 1, -1, 365, -70_000_000, 70_000_000] {
+        b.push(((j << 32) + r) * 86_400 * NS); b.push(((j << 31) + r) * 86_400 * NS); b.push(((j << 32) + r) * 86_400 * NS + 1);
+    } }
     for _ in 0..extra { b.push(match rng.below(3) { 0 => (rng.next() as i128) % DUR_LIM, 1 => rng.loguniform(60).abs() as i128, _ => rng.range(0, 400 * 366) as i128 * 86_400 * NS + rng.range(0, 86_399_999) as i128 * 1000 }); }
     let mut v = Vec::new();
     for x in b { if x <= DUR_LIM { v.push(x); v.push(-x); } }
